@@ -42,6 +42,25 @@ def caseLine (hex : String) (ns : List Nat) (s : List Nat) (spec : Bool) : Strin
         | some m => s!"rt=ok rty={tyName m.ty} rbits={m.bits} rbytes={hexBytes m.bytes}"
     s!"C {hex} imp=ok ty={tyName v.ty} bits={v.bits} bytes={hexBytes v.bytes} es={optS es} eb={str (exportBinary false v)} ebs={str (exportBinary true v)} vb={str (exportVerilogBinary v)} nb={nb} {rt}"
 
+def hexVal (c : Char) : Nat := digitVal c.toNat
+
+def unhexBytes (h : String) : List Nat :=
+  let rec go : List Char → List Nat
+    | a :: b :: rest => (hexVal a * 16 + hexVal b) :: go rest
+    | _ => []
+  if h = "-" then [] else go h.toList
+
+/-- observables of a value built by ImportUint / ImportBytes (same fields as the harness' VC line) -/
+def valueLine (v : BMNumber) : String :=
+  let es := exportString v
+  let u := match exportUint64 v with | some n => toString n | none => "!err"
+  let rt := match es with
+    | none => "rt=-"
+    | some e => match importString e with
+      | none => "rt=err"
+      | some m => s!"rt=ok rty={tyName m.ty} rbits={m.bits} rbytes={hexBytes m.bytes}"
+  s!"ty={tyName v.ty} bits={v.bits} bytes={hexBytes v.bytes} u64={u} es={optS es} eb={str (exportBinary false v)} ebs={str (exportBinary true v)} vb={str (exportVerilogBinary v)} {rt}"
+
 def step (_ : Unit) (line : String) : Unit × List String :=
   let fs := fields line
   match fs with
@@ -58,6 +77,11 @@ def step (_ : Unit) (line : String) : Unit × List String :=
       let l1 := caseLine hex nl s false
       let isSigned : Bool := match importString s with | some v => v.ty == .signed | none => false
       if isSigned then ((), [l1, "CF" ++ (caseLine hex nl s true).drop 1]) else ((), [l1])
+  | "V" :: "uint" :: w :: v :: ob :: _ =>
+    ((), [s!"VC uint {w} {v} {ob} " ++ valueLine (importUint (nat! w) (nat! v) (nat! ob))])
+  | "V" :: "bytes" :: bits :: behex :: cast :: _ =>
+    let t : NType := if cast = "hex" then .hex else if cast = "bin" then .bin else .unsigned
+    ((), [s!"VC bytes {bits} {behex} {cast} " ++ valueLine (castType (importBytes (unhexBytes behex) (nat! bits)) t)])
   | _ => ((), [])
 
 def cpsStr (w : List Nat) : String := " ".intercalate (w.map fun n => Nat.repr n)
